@@ -226,8 +226,9 @@ func cmdWorlds(args []string) int {
 			defer em.close()
 			dir := filepath.Join(root, fmt.Sprintf("s%02d", s))
 			for gi := s; gi < len(groups); gi += *shards {
+				gs := &groupState{}
 				for _, c := range groups[gi] {
-					runCase(em, dir, c, *seed, opset, *bin)
+					runCase(em, dir, c, *seed, opset, *bin, gs)
 				}
 			}
 		}(s)
@@ -243,34 +244,51 @@ func cmdWorlds(args []string) int {
 	return 0
 }
 
-func runCase(em *emitter, dir string, c Case, seed int64, ops map[string]bool, bin string) {
+// groupState carries what consecutive cases of one behaviour share: one concretisation (so that observations
+// of consecutive worlds are comparable and diff can be run on an edge) and the previous world's directory.
+type groupState struct {
+	conc    *world.Conc
+	prevDir string
+	prev    *world.World
+	dir     string
+	n       int
+}
+
+func runCase(em *emitter, dir string, c Case, seed int64, ops map[string]bool, bin string, gs *groupState) {
 	w := c.World
 	cseed := seed*1000003 + int64(c.ID)
 	if c.Seed != 0 {
 		cseed = c.Seed
 	}
-	conc := world.NewConc(w, cseed)
-	if c.Conc != "" {
-		rc := &world.Conc{}
-		if err := json.Unmarshal([]byte(c.Conc), rc); err == nil && len(rc.PortCuts) == w.M+1 {
-			conc = rc
+	if gs.conc == nil || !c.Chain || len(gs.conc.PortCuts) != w.M+1 {
+		gs.conc = world.NewConc(w, cseed)
+		if c.Conc != "" {
+			rc := &world.Conc{}
+			if err := json.Unmarshal([]byte(c.Conc), rc); err == nil && len(rc.PortCuts) == w.M+1 {
+				gs.conc = rc
+			}
 		}
+		gs.prevDir, gs.prev = "", nil
 	}
+	conc := gs.conc
 	cb, _ := json.Marshal(conc)
 	if c.Args == nil {
 		c.Args = []interface{}{}
 	}
-	em.emit(worldEvent{Seed: cseed, Ev: "World", ID: c.ID, Label: c.Label, Args: c.Args, Chain: c.Chain, World: w, Conc: string(cb)})
-	wdir := filepath.Join(dir, "w")
+	em.emit(worldEvent{Ev: "World", Seed: cseed, ID: c.ID, Label: c.Label, Args: c.Args, Chain: c.Chain, World: w, Conc: string(cb)})
+	gs.n++
+	wdir := filepath.Join(dir, fmt.Sprintf("w%d", gs.n%2))
 	os.RemoveAll(wdir)
 	if err := conc.WriteWorld(wdir, w, cseed); err != nil {
 		panic(err)
 	}
+	gs.dir = wdir
 	if ops["list"] {
 		obs, _, _ := run.List(wdir, w, conc, run.ListOpts{})
 		em.emit(listEvent{Ev: "List", Obs: obs})
 	}
-	runExtraOps(em, dir, wdir, c, conc, cseed, ops, bin)
+	runExtraOps(em, dir, wdir, c, conc, cseed, ops, bin, gs)
+	gs.prevDir, gs.prev = wdir, w
 }
 
 func init() {
